@@ -74,6 +74,16 @@ CHECKS = {
              "ones, ULT and external) where exactly the expired waiters time out, later signals wake exactly one remaining "
              "waiter and broadcast wakes the rest; timed waits racing with signals; blocking pool pops racing with pushes",
         ref="DESIGN.md §5 C19"),
+    "C20": dict(
+        technique="runtime monitoring with reference models: op-by-op reference map for config objects, independent "
+                  "digit-string reference for the numeric parsers, documented clamp/round rules for environment values, "
+                  "recursive-descent reference of the affinity grammar; exhaustive short-string enumeration plus generated "
+                  "boundary/mutated inputs; ASan+UBSan builds",
+        category="exploration",
+        text="held on the inputs produced: every string up to length 5-7 over the relevant alphabets (complete for that "
+             "bounded space) plus hundreds of thousands of generated boundary and mutated inputs agree with independent "
+             "references in value, overflow flag, acceptance and expansion; sanitizers silent",
+        ref="DESIGN.md §5 C20"),
 }
 
 
